@@ -254,7 +254,8 @@ def run(chk):
     chk.rule = ("folding: all ordered pairs from a pool of operands (every LExpr class, literal values 0,±1,… int/float/complex) "
                 "and Python numbers on either side × {+,-,*,/}; non-trivial = the real result is not the plain binary node "
                 "(a folding branch fired), keyed by (op, operand kinds). optimiser: every corpus kernel executed exactly "
-                "(Rat) with and without optimize(); non-trivial = optimiser changed the AST.")
+                "(Rat) with and without optimize(); non-trivial = optimiser changed the AST. Lean model of optimizer.py vs the real optimize() "
+                "on every captured part list and on seeded synthetic ones (exact structure); optimizeCert evaluated per part list.")
     chk.trusted += ["harness/lnodes_eval.py (independent exact evaluator used as the property's oracle for folding)",
                     "IEEE NaN/Inf behaviour of 0*x folding is outside the real-number theorems"]
     chk.lean("FfcxProofs.C17", THEOREMS)
@@ -269,5 +270,14 @@ def run(chk):
             nin = 1
         optimiser_semantic(chk, d, ents, nin)
         hop_certificates(chk, d, ents)
+        # Lean transcription of optimizer.py: structural correspondence with the real optimiser on every part list,
+        # certificates of fuse_sections_sound / fuse_loops_sound / licm_sound / optimize_sound per kernel
+        from .. import opt_checks
+        from .c10 import tp_entries
+        chk.lean(opt_checks.OPT_MODULE, opt_checks.OPT_THEOREMS, extra_files=opt_checks.OPT_FILES)
+        oents = ents + [t for t in tp_entries() if t.name.endswith(("_1", "_2"))]
+        opt_checks.check_optimizer(chk, d, oents)
+        opt_checks.check_certificates(chk, d, oents)
+        opt_checks.check_latent_defects(chk, d)
     if chk.tier == "thorough":
-        chk.leanchecker(["FfcxProofs.C17"])
+        chk.leanchecker(["FfcxProofs.C17", "FfcxProofs.C17Opt"])
